@@ -527,6 +527,28 @@ Proof.
 Qed.
 
 (* ---------------- a broadcast that is not from the dealer ---------------- *)
+(* when only the complaints / answers changed before the complaints timeout, Phi is decided
+   by its wrong-answer and unreadable-answer clauses *)
+Lemma Phi_early A B w :
+  Phi A = false -> (nph A < 2)%nat ->
+  forced B = forced A -> fatal B = fatal A -> vecF B = vecF A -> nph B = nph A ->
+  badFirst cf d B || wrongAns cf d B = w -> Phi B = w.
+Proof.
+  intros P Hk Ffo Ff Fv Fn Hw. destruct (Phi_false_inv A P) as (P1 & P2 & P3 & P4 & P5 & P6 & P7).
+  unfold DkgQualFacts.Phi. rewrite Ffo, Ff, P1, P2.
+  assert (E4 : badVec d B = false) by (unfold badVec; rewrite Fv; exact P4).
+  assert (E5 : noVec d B = false) by (unfold noVec; rewrite Fn, Fv; exact P5).
+  assert (E6 : tooMany cf d B = false).
+  { unfold tooMany. rewrite Fn. assert (E : Nat.leb 2 (nph A) = false) by (apply Nat.leb_gt; exact Hk). rewrite E. reflexivity. }
+  rewrite E4, E5, E6. rewrite <- Hw. destruct (badFirst cf d B), (wrongAns cf d B); reflexivity.
+Qed.
+
+Lemma badFirst_same A B : (forall c, ansF B c = ansF A c) -> badFirst cf d B = badFirst cf d A.
+Proof. intro H. unfold badFirst. apply existsb_ext'. intro c. rewrite H. reflexivity. Qed.
+
+Ltac red1 := cbn [q_disq qset_disq qset_compl qset_v qset_st qset_ct q_v q_st q_ct q_compl fst snd negb andb orb
+                     absEntry c_recv c_ans c_val].
+
 Lemma step_complaint_other A q o cb :
   q_disq q = false -> StateAbs A q -> Phi A = false -> o <> d -> (o < n)%nat -> c_my cf <> o ->
   match q_receive_complaint cf d o cb q with
@@ -537,7 +559,7 @@ Proof.
   intros Hq S P Ho Hon Hop. unfold q_receive_complaint.
   destruct S as [Sst Sct Svr Svok Svnone Sxr Scompl Searly Sx Sx0 Sx1].
   destruct (q_ct q) eqn:Ect.
-  { cbn. apply (refines_same A); auto; [|constructor; auto; congruence].
+  { red1. apply (refines_same A); auto; [|constructor; auto; congruence].
     apply not_dealer_irrelevant; auto. intro c. unfold complaint_of. destruct cb; try reflexivity.
     symmetry in Sct. apply Nat.leb_le in Sct.
     assert (E : Nat.ltb (nph A) 2 = false) by (apply Nat.ltb_ge; exact Sct). rewrite E, !andb_false_r. reflexivity. }
@@ -545,13 +567,13 @@ Proof.
   { symmetry in Sct. apply Nat.leb_gt in Sct. exact Sct. }
   rewrite (proj2 (Nat.eqb_neq o d) Ho).
   destruct cb as [|b].
-  { cbn. apply (refines_same A); auto; [|constructor; auto; congruence]. apply not_dealer_irrelevant; auto. }
+  { red1. apply (refines_same A); auto; [|constructor; auto; congruence]. apply not_dealer_irrelevant; auto. }
   destruct (Z.of_nat (c_n cf) <=? b) eqn:Eb.
-  { cbn. apply (refines_same A); auto; [|constructor; auto; congruence]. apply not_dealer_irrelevant; auto.
-    intro c. unfold complaint_of. rewrite Eb. cbn. rewrite !andb_false_r. reflexivity. }
+  { red1. apply (refines_same A); auto; [|constructor; auto; congruence]. apply not_dealer_irrelevant; auto.
+    intro c. unfold complaint_of. rewrite Eb. red1. rewrite !andb_false_r. reflexivity. }
   cbn [negb].
   destruct (Nat.eqb_spec (Z.to_nat b) d) as [Ebd|Ebd]; cbn [negb].
-  2:{ cbn. apply (refines_same A); auto; [|constructor; auto; congruence]. apply not_dealer_irrelevant; auto.
+  2:{ red1. apply (refines_same A); auto; [|constructor; auto; congruence]. apply not_dealer_irrelevant; auto.
       intro c. unfold complaint_of. rewrite (proj2 (Nat.eqb_neq _ _) Ebd). rewrite !andb_false_r. reflexivity. }
   (* a valid complaint against the dealer *)
   assert (Hop' : o <> p) by (unfold p; congruence).
@@ -564,16 +586,9 @@ Proof.
   destruct (Phi_false_inv A P) as (P1 & P2 & P3 & P4 & P5 & P6 & P7).
   assert (Hcomp_o : complained A o = compF A o).
   { unfold DkgQualFacts.complained. rewrite (proj2 (Nat.eqb_neq o (c_my cf)) Hop'). reflexivity. }
-  (* everything of Phi except wrongAns is unchanged and false *)
   assert (PB : forall w, wrongAns cf d B = w -> Phi B = w).
-  { intros w Hw. unfold DkgQualFacts.Phi. rewrite Ffo, Ff, P1, P2. cbn.
-    assert (E3 : badFirst cf d B = false).
-    { transitivity (badFirst cf d A); [|exact P3]. unfold badFirst. apply existsb_ext'. intro c. rewrite Fa. reflexivity. }
-    assert (E4 : badVec d B = false) by (unfold badVec; rewrite Fv; exact P4).
-    assert (E5 : noVec d B = false) by (unfold noVec; rewrite Fn, Fv; exact P5).
-    assert (E6 : tooMany cf d B = false).
-    { unfold tooMany. rewrite Fn. assert (E : Nat.leb 2 (nph A) = false) by (apply Nat.leb_gt; exact Hk). rewrite E. reflexivity. }
-    rewrite E3, E4, E5, E6, Hw. reflexivity. }
+  { intros w Hw. apply (Phi_early A B w P Hk); auto.
+    rewrite (badFirst_same A B Fa), P3. exact Hw. }
   (* wrongAns B in terms of the entry of o *)
   assert (WB : wrongAns cf d B =
                match vecOk A with
@@ -589,14 +604,14 @@ Proof.
   rewrite (Scompl o), Hcomp_o.
   destruct (compF A o) eqn:Eco; destruct (ansF A o) as [z|] eqn:Eao; cbn [absEntry c_recv c_ans c_val].
   + (* already complained and answered: flagged *)
-    cbn. assert (SF : same_facts A B).
+    red1. assert (SF : same_facts A B).
     { unfold same_facts. repeat split; auto; try (intro c; auto).
-      - unfold B. rewrite compF_app. unfold comp_of. destruct (compF A c) eqn:E; [reflexivity|]. cbn.
+      - unfold B. rewrite compF_app. unfold comp_of. destruct (compF A c) eqn:E; [reflexivity|]. red1.
         unfold complaint_of. destruct (Nat.eqb_spec o c) as [<-|]; [congruence|reflexivity]. }
     apply (refines_same A); auto. constructor; auto; congruence.
-  + cbn. assert (SF : same_facts A B).
+  + red1. assert (SF : same_facts A B).
     { unfold same_facts. repeat split; auto; try (intro c; auto).
-      - unfold B. rewrite compF_app. unfold comp_of. destruct (compF A c) eqn:E; [reflexivity|]. cbn.
+      - unfold B. rewrite compF_app. unfold comp_of. destruct (compF A c) eqn:E; [reflexivity|]. red1.
         unfold complaint_of. destruct (Nat.eqb_spec o c) as [<-|]; [congruence|reflexivity]. }
     apply (refines_same A); auto. constructor; auto; congruence.
   + (* the answer came first *)
@@ -622,23 +637,23 @@ Proof.
       unfold check_complaint. cbn [q_v qset_compl]. rewrite Ey, (pubkeys_nth_error _ o Hon).
       rewrite Evo, Hrz in WB. cbn [andb] in WB.
       destruct (z =? peval (fixpoly (c_t cf) l) (Z.of_nat o + 1)) eqn:Ez; cbn [negb] in *.
-      -- cbn. split; intro Hq'; cbn in Hq'; [|discriminate]. split; [|apply PB; exact WB].
+      -- red1. split; intro Hq'; cbn [q_disq qset_disq qset_compl qset_v] in Hq'; [|discriminate]. split; [|apply PB; exact WB].
          apply SAB; auto.
-      -- cbn. split; intro Hq'; cbn in Hq'; [discriminate|]. apply PB. exact WB.
+      -- red1. split; intro Hq'; cbn [q_disq qset_disq qset_compl qset_v] in Hq'; [discriminate|]. apply PB. exact WB.
     * (* no vector yet: the check is deferred *)
-      cbn. rewrite Svr in Er. destruct (vecF A) eqn:Ev; [discriminate|].
+      red1. rewrite Svr in Er. destruct (vecF A) eqn:Ev; [discriminate|].
       assert (Evo : vecOk A = None) by (unfold DkgQualFacts.vecOk; rewrite Ev; reflexivity).
-      rewrite Evo in WB. split; intro Hq'; cbn in Hq'; [|congruence]. split; [|apply PB; exact WB].
+      rewrite Evo in WB. split; intro Hq'; cbn [q_disq qset_disq qset_compl qset_v] in Hq'; [|congruence]. split; [|apply PB; exact WB].
       apply SAB; auto.
   + (* a new complaint *)
-    cbn [qset_compl q_v]. rewrite (proj2 (Nat.eqb_neq (c_my cf) d) Hpd). cbn.
+    cbn [qset_compl q_v]. rewrite (proj2 (Nat.eqb_neq (c_my cf) d) Hpd). red1.
     assert (WB' : wrongAns cf d B = false) by (rewrite WB; destruct (vecOk A); reflexivity).
-    split; intro Hq'; cbn in Hq'; [|congruence]. split; [|apply PB; exact WB'].
+    split; intro Hq'; cbn [q_disq qset_disq qset_compl qset_v] in Hq'; [|congruence]. split; [|apply PB; exact WB'].
     assert (S0 : StateAbs A q) by (constructor; auto; congruence).
     assert (Fp : complained B p = complained A p).
     { rewrite Fc, (proj2 (Nat.eqb_neq o p) Hop'), orb_false_r. reflexivity. }
     apply (SA_transfer A B q _ S0); auto.
-    intro c. cbn. rewrite Fc, Fa. destruct (Nat.eqb_spec c o) as [->|Hc].
+    intro c. red1. rewrite Fc, Fa. destruct (Nat.eqb_spec c o) as [->|Hc].
     * rewrite upd_same, Nat.eqb_refl, orb_true_r, Eao. reflexivity.
     * rewrite upd_other by exact Hc. rewrite (proj2 (Nat.eqb_neq o c)) by congruence. rewrite orb_false_r. apply Scompl.
 Qed.
